@@ -23,6 +23,10 @@ CHECKS = {
          "Seeded sequential programs over the four value placements, three cache-duration settings, slot lengths 2..32, value sizes 0 B..1.1 MB, random batching into transactions and cold restarts; every read and the final cold ordered (key,value) dump must equal the model.",
          "Trusted: the reference model, the simulator (simulated disk = real files on tmpfs).",
          "7/C19"),
+ "C04": (EXPL, "deterministic simulation: seeded scheduler interleaves 2-3 writer transactions at every intercepted cache/file operation; union oracle",
+         "Seeded search over interleavings (PCT and sticky random walk over ~300 yield points per commit) of 2-3 writers with disjoint key sets on small-slot seeded stores, fault-free, fair, maxTime 15 simulated minutes: every Commit must return nil and warm/cold dumps must equal the union. Bounded liveness is judged only in this fault-free configuration.",
+         "Trusted: simulator, KV model. One OS process; transactions are goroutines of one simulated process sharing the L1/L2 caches (as in production standalone mode).",
+         "7/C04"),
 }
 
 NOT_APPLICABLE = {
